@@ -678,8 +678,63 @@ def subclass_refusals_stream(ctx, res):
             res.violate("C06:override-changed-state", "a command-line override raised (a rule of the schema is broken) with the value already stored and marked user-defined",
                         dict(case, before=tree0, after=cfg.to_tree()))
 
+def refused_slot_stream(ctx, res):
+    """A replacement of a list item that the LIST refuses — the index names no slot (`l[5] = x` on a shorter list, `l[-9] = x`), the
+    index is no index (`l['0'] = x`, also reached by the dotted path `cfg['a.0'] = x`) — with an acceptable item: a map, a new
+    configuration, a configuration that sits in another list of this or of another configuration. Nothing changes anywhere: values,
+    list membership, and the places the items report (their reference paths and the list they belong to)"""
+    import cincoconfig as cc
+    item = cc.Schema()
+    item.name = cc.StringField(default="n")
+    item.port = cc.PortField(default=1)
+    for typed in (False, True):
+        it = cc.make_type(item, "C06Slot") if typed else item
+        s = cc.Schema()
+        s.a = cc.ListField(it, default=lambda: [])
+        s.sub.b = cc.ListField(it, default=lambda: [])
+        s.nums = cc.ListField(cc.IntField(), default=lambda: [])
+        for source in ("map", "new configuration", "item of another list", "item of another configuration", "number"):
+            for label, do in (("l[5] = x", lambda c, x: c.a.__setitem__(5, x)), ("l[-9] = x", lambda c, x: c.a.__setitem__(-9, x)), ("l['0'] = x", lambda c, x: c.a.__setitem__("0", x)),
+                              ("cfg['a.0'] = x", lambda c, x: c.__setitem__("a.0", x)), ("l[1.0] = x", lambda c, x: c.a.__setitem__(1.0, x))):
+                c1, c2 = s(), s()
+                for c in (c1, c2):
+                    c.a = [{"name": "a0"}, {"name": "a1"}]
+                    c.sub.b = [{"name": "b0"}, {"name": "b1"}]
+                    c.nums = [1, 2]
+                if source == "number":
+                    if "a.0" in label:
+                        continue
+                    offered = 7
+                    do_ = (lambda c, x, d=do: d(type("T", (), {"a": c.nums, "__setitem__": None})(), x))
+                else:
+                    offered = {"map": {"name": "m"}, "new configuration": it(name="fresh") if typed else item(name="fresh"), "item of another list": c1.sub.b[1],
+                               "item of another configuration": c2.a[0]}[source]
+                    do_ = do
+
+                def snap():
+                    out = []
+                    for c in (c1, c2):
+                        out.append(json.dumps(c.to_tree(), sort_keys=True))
+                        for lst in (c.a, c.sub.b):
+                            out.append([(id(x), cc.item_ref_path(x), x._container is lst, x._parent is lst.cfg) for x in lst])
+                    if isinstance(offered, cc.Config) and source != "new configuration":     # a free-standing object is not part of any configuration
+                        out.append((cc.item_ref_path(offered), id(offered._container), id(offered._parent)))
+                    return out
+                before = snap()
+                try:
+                    do_(c1, offered)
+                    raised = None
+                except Exception as e:  # noqa
+                    raised = type(e).__name__
+                case = {"stream": "refused-slot", "config_type": typed, "offered": source, "op": label, "raised": raised}
+                res.case(stable(case) if raised else None, kind="refused-slot:%s" % ("rejected" if raised else "accepted"))
+                if raised and snap() != before:
+                    res.violate("C06:rejected-list-op-changed-another-list:slot", "a replacement the list refused (no such slot) changed something: the offered configuration now "
+                                "reports a place in the refusing list although it still sits where it was", case)
+
 def run(ctx, n_quick=200, n_thorough=6000):
     res = Result()
+    guard(res, "C06", refused_slot_stream, ctx, res)
     guard(res, "C06", subclass_refusals_stream, ctx, res)
     guard(res, "C06", refused_write_hook_stream, ctx, res)
     guard(res, "C06", lambda: P.run_stream(ctx, res, "C06", ctx.n(n_quick, n_thorough), oracle, gen_ops=gen_ops))
